@@ -92,7 +92,10 @@ def run_case(case, rep, record=True):
         for n, op in enumerate(case["ops"]):
             nops = n + 1
             if op[0] == "x":
-                out = env.reset()
+                # Gymnasium's keyword-only reset arguments must be accepted
+                out = env.reset(seed=n) if n % 3 == 0 else (env.reset(options={}) if n % 3 == 1 else env.reset())
+                if not isinstance(out, tuple) or len(out) != 2 or not isinstance(out[1], dict):
+                    raise Failure("C10:reset-tuple", f"reset returned {type(out)}")
                 check_obs(env, scn, out[0], modes, "reset")
                 h.mst = spec.initial()
                 continue
